@@ -781,6 +781,8 @@ package gtfs
 //@   loop 2 step [route-only-descriptor-recorded] routeOnly(alert.InformedEntity[athead(2, $i)]) ==> has(informedRoutesFromTripIDs, *alert.InformedEntity[athead(2, $i)].Trip.RouteId) && (alert.InformedEntity[athead(2, $i)].Trip.DirectionId == nil ==> informedRoutesFromTripIDs[*alert.InformedEntity[athead(2, $i)].Trip.RouteId][DirectionID_False] && informedRoutesFromTripIDs[*alert.InformedEntity[athead(2, $i)].Trip.RouteId][DirectionID_True]) && (alert.InformedEntity[athead(2, $i)].Trip.DirectionId != nil ==> informedRoutesFromTripIDs[*alert.InformedEntity[athead(2, $i)].Trip.RouteId][parseDirectionID_GTFSRealtime(alert.InformedEntity[athead(2, $i)].Trip.DirectionId)])
 //@   loop 2 step [recorded-direction-0-kept] forall r string :: athead(2, has(informedRoutesFromTripIDs, r) && informedRoutesFromTripIDs[r][DirectionID_False]) ==> has(informedRoutesFromTripIDs, r) && informedRoutesFromTripIDs[r][DirectionID_False]
 //@   loop 2 step [recorded-direction-1-kept] forall r string :: athead(2, has(informedRoutesFromTripIDs, r) && informedRoutesFromTripIDs[r][DirectionID_True]) ==> has(informedRoutesFromTripIDs, r) && informedRoutesFromTripIDs[r][DirectionID_True]
+//@   loop 2 step [entities-already-emitted-are-kept] forall k int :: 0 <= k && k < athead(2, len(informedEntities)) ==> informedEntities[k] == athead(2, informedEntities[k]) && (informedEntities[k].RouteID != nil ==> *informedEntities[k].RouteID == athead(2, *informedEntities[k].RouteID)) && (informedEntities[k].AgencyID != nil ==> *informedEntities[k].AgencyID == athead(2, *informedEntities[k].AgencyID)) && (informedEntities[k].StopID != nil ==> *informedEntities[k].StopID == athead(2, *informedEntities[k].StopID)) && (informedEntities[k].TripID != nil ==> *informedEntities[k].TripID == athead(2, *informedEntities[k].TripID))
+//@   loop 4 step [entities-already-emitted-are-kept] forall k int :: 0 <= k && k < athead(4, len(informedEntities)) ==> informedEntities[k] == athead(4, informedEntities[k]) && (informedEntities[k].RouteID != nil ==> *informedEntities[k].RouteID == athead(4, *informedEntities[k].RouteID)) && (informedEntities[k].AgencyID != nil ==> *informedEntities[k].AgencyID == athead(4, *informedEntities[k].AgencyID)) && (informedEntities[k].StopID != nil ==> *informedEntities[k].StopID == athead(4, *informedEntities[k].StopID)) && (informedEntities[k].TripID != nil ==> *informedEntities[k].TripID == athead(4, *informedEntities[k].TripID))
 //@   loop 4 step [fallback-suppressed-by-explicit-route] informedRoutes[routeIDsFromTripIDs[athead(4, $i)]] ==> informedEntities == athead(4, informedEntities)
 //@   loop 4 step [fallback-entity] !informedRoutes[routeIDsFromTripIDs[athead(4, $i)]] ==> len(informedEntities) == athead(4, len(informedEntities)) + 1 && fallbackFor(informedEntities[len(informedEntities) - 1], routeIDsFromTripIDs[athead(4, $i)], informedRoutesFromTripIDs[routeIDsFromTripIDs[athead(4, $i)]])
 //@   loop 3 invariant fresh(routeIDsFromTripIDs) && fresh(informedEntities)
